@@ -6,6 +6,29 @@ import os
 ROOT = os.path.dirname(os.path.dirname(os.path.abspath(__file__)))
 PY = "PYTHONHASHSEED=0 /venv/bin/python"
 
+# additions of seeded rounds 5-7 (DESIGN.md section 11), appended to the level text
+ADDENDA = {
+    "C01": " Community / Region rooted trees included. Second part 'retarget' (300 quick / 8k thorough): one prepared zone tree is targeted through the exported steps, one stream of a unit-operation zone is exchanged, parents re-import, the tree is targeted again and every zone must report the exact cascade of the streams it holds now.",
+    "C02": " One case in three switches on 1-3 analysis flags that add outputs only (unit-operation targeting, vertical GCC, assisted transfer, exergy, balanced curves off); Community / Region rooted trees included.",
+    "C03": " One case in three switches on 1-3 analysis flags that add outputs only.",
+    "C04": " In mixed ladders (glide levels, close levels) the lowest-grade level is decided on its own when it is isothermal and the coldest hot / hottest cold utility by supply temperature on both scales: LP over all duties with that duty maximised. One case in three switches on output-only analysis flags.",
+    "C05": " One case in three switches on 1-3 analysis flags that add outputs only (e.g. the vertical GCC, which reads the same tables).",
+    "C06": " Narrow double pinches (0.04-0.4 K apart) and the reporting-precision option DECIMAL_PLACES in {0, 1, 3}: which pinches are reported must not depend on it. One case in three switches on output-only analysis flags.",
+    "C07": " Pipeline part: one case in three switches on output-only analysis flags.",
+    "C08": " Tables with idle intervals (every populated heat-capacity column exactly zero) under sloping utility-type curves; a third of the tables carry all three heat-capacity pairs.",
+    "C09": " Sites with a zone pinched at two temperatures with a bulge in between, Community / Region rooted trees, output-only analysis flags in one case of three.",
+    "C10": " Path labels in non-canonical spellings (blanks, leading / trailing / doubled separators) with and without a user tree.",
+    "C11": " A third of the pool problems are spelled with value-with-unit dictionaries (unit strings such as '\u00b0C'); root-labelled streams named like a zone.",
+    "C12": " Zone renaming draws names with string-suffix pairs ('Plant' / 'Old Plant') and, in half of the cases, both twins carry an explicit zone tree with labels as full path, relative path or bare zone name.",
+    "C13": " Community / Region rooted trees included.",
+    "C14": " Community / Region rooted trees; in half of the cases the same payload object (plain dictionary, dictionary of schema objects, validated model) is analysed twice more and must reproduce the first result.",
+    "C15": " Film coefficients of the reference come from the input, not from the reported utilities; a third of the problems spell each number independently as a bare float or a value-with-unit object; fractional cost parameters and service lives.",
+    "C16": " Channel vu_mixed (every number independently bare or value-with-unit, unit spellings vary); user zone trees on the channels that can carry one; the same validated model analysed twice.",
+    "C17": " Class small-span (enthalpy in a large unit, isolated points 1e-5..1e-4 K off a straight piece); integer-typed samples must give the same points as the same numbers as floats (decides the >10-breakpoint branch behind finding C17-F3 differentially).",
+    "C18": " Duties from 5e-6 to 1e6; evaporating / condensing temperature snapped onto exactly 0 degC or whole degrees in a share of the cases.",
+    "C19": " add(prevent_overwrite=False) on existing and new keys (explicit overwrite) in the collection machine.",
+}
+
 # pid -> (technique, level text, level note, design ref)
 CHECKS = {
     "C01": (
@@ -148,7 +171,7 @@ def main():
                     "evidence_file": f"evidence/{pid}.json",
                     "replay_cmd_template": f"{PY} -m opv.check {pid} --replay {{path}}",
                     "engine": "opv",
-                    "level_claimed": {"category": "exploration", "text": text, "design_ref": ref},
+                    "level_claimed": {"category": "exploration", "text": text + ADDENDA.get(pid, ""), "design_ref": ref},
                     "level_note": note,
                     "technique": tech,
                 }
